@@ -6,6 +6,7 @@ import (
 	"fmt"
 	stdslog "log/slog"
 	"strings"
+	"time"
 
 	"github.com/hedzr/is"
 	"github.com/hedzr/logg/slog"
@@ -156,7 +157,18 @@ var builtinLevels = []slog.Level{slog.PanicLevel, slog.FatalLevel, slog.ErrorLev
 func genRegistry(r *gen.R) []custLevel {
 	n := r.Range(2, 5)
 	cands := []slog.Level{-1, -7, -50, 12, 13, 17, 20, 33, 64, 1000}
+	// "any numeric value": values that do not fit 32 bits (their low 32 bits are 0, 3 = Warn, -2 and 7 = Off)
+	huge := []slog.Level{1 << 40, -(1 << 40), 1<<32 + 3, -(1 << 32) - 2, 1<<33 + 7}
 	r.Shuffle(len(cands), func(i, j int) { cands[i], cands[j] = cands[j], cands[i] })
+	if r.P(50) {
+		cands[0] = gen.Pick(r, huge)
+		if r.P(50) {
+			cands[1] = gen.Pick(r, huge)
+			for cands[1] == cands[0] {
+				cands[1] = gen.Pick(r, huge)
+			}
+		}
+	}
 	var out []custLevel
 	for i := 0; i < n; i++ {
 		cl := custLevel{val: cands[i], title: fmt.Sprintf("cust%d", i), treatAs: -1}
@@ -341,6 +353,15 @@ func c01table(c *Ctx) {
 		if c.Tier == "quick" && idx > 0 {
 			states = states[:4]
 		}
+		// the caller's context is not part of the rule: a live one, one with values, a cancelled one and one whose
+		// deadline has passed take turns at every call that accepts a context
+		cancelled, cancel := context.WithCancel(context.Background())
+		cancel()
+		expired, cancel2 := context.WithDeadline(context.Background(), time.Unix(1, 0))
+		defer cancel2()
+		type c01key struct{}
+		ctxs := []context.Context{context.Background(), cancelled, context.WithValue(context.Background(), c01key{}, 1), expired}
+		ctxNames := []string{"background", "cancelled", "with-value", "deadline-passed"}
 		ctx := context.Background()
 		cells := 0
 		for _, st := range states {
@@ -364,13 +385,14 @@ func c01table(c *Ctx) {
 						slog.SetDefault(kd.l)
 					}
 					// Enabled getters
-					for _, r := range sevs {
+					for i, r := range sevs {
 						want := admit(L, r, d, treat)
+						ctx = ctxs[(i+cells)%len(ctxs)]
 						if got := kd.l.Enabled(r); got != want {
 							c.R.Violation(idx, "enabled", fmt.Sprintf("C01/enabled/L=%s", className(L)), fmt.Sprintf("%s.Enabled(%v)=%v, rule says %v (logger level %v, debug mode %v)", kd.name, r, got, want, L, d), map[string]any{"customs": cdesc, "history": st.name})
 						}
 						if got := kd.l.EnabledContext(ctx, r); got != want {
-							c.R.Violation(idx, "enabled", fmt.Sprintf("C01/enabledctx/L=%s", className(L)), fmt.Sprintf("%s.EnabledContext(%v)=%v, rule says %v (logger level %v, debug mode %v)", kd.name, r, got, want, L, d), map[string]any{"customs": cdesc, "history": st.name})
+							c.R.Violation(idx, "enabled", fmt.Sprintf("C01/enabledctx/L=%s", className(L)), fmt.Sprintf("%s.EnabledContext(ctx with Err()=%v, %v)=%v, rule says %v (logger level %v, debug mode %v)", kd.name, ctx.Err(), r, got, want, L, d), map[string]any{"customs": cdesc, "history": st.name})
 						}
 					}
 					for _, e := range eps {
@@ -391,6 +413,8 @@ func c01table(c *Ctx) {
 								is.SetVerboseMode(true)
 								c.R.Add("calls_with_process_verbose_mode_on", 1)
 							}
+							ctx = ctxs[(cells/2)%len(ctxs)]
+							c.R.Distinct("caller_contexts", ctxNames[(cells/2)%len(ctxs)])
 							e.call(kd.l, ctx, r)
 							if vm {
 								is.SetVerboseMode(false)
@@ -427,7 +451,7 @@ func c01table(c *Ctx) {
 								c.R.Violation(idx, "gate", "C01/gate/"+e.name+"/"+kind,
 									fmt.Sprintf("%s on %s: logger level %v(%d), severity %v(%d), debug mode %v [%s]: %d write(s), rule says admit=%v; events: %s",
 										e.name, kd.name, L, int(L), r, int(r), d, st.name, n, want, fmtEvents(log.Events())),
-									map[string]any{"customs": cdesc, "entry": e.name, "logger": kd.name, "level": int(L), "severity": int(r), "debug": d, "verbose_mode": vm, "history": st.name})
+									map[string]any{"customs": cdesc, "entry": e.name, "logger": kd.name, "level": int(L), "severity": int(r), "debug": d, "verbose_mode": vm, "history": st.name, "caller_context": fmt.Sprint(ctx.Err())})
 							}
 							if n > 0 {
 								c.R.Add("records_emitted", 1)
